@@ -35,6 +35,7 @@ func optInt(s string) int {
 // runHist executes a history of NewRoot / Add / From-Root / From-Markdown operations
 // in this process, in order, and reports one result per operation.
 func runHist(spec string, massive bool) string {
+	defer jailLeave()
 	var handles []*gtree.Node
 	var outs []string
 	node := func(h string) *gtree.Node {
